@@ -6,7 +6,7 @@
 import random
 
 M64 = (1 << 64) - 1
-BLK_ARGS = False      # block arguments: enabled once fixes/C20-11.patch (by-value block arguments in mir2c) is in /repo
+BLK_ARGS = True       # block arguments (by value since fix C20-11, /repo f6e1814b)
 INT_TYPES = ['i8', 'u8', 'i16', 'u16', 'i32', 'u32', 'i64', 'u64']
 SIZE = {'i8': 1, 'u8': 1, 'i16': 2, 'u16': 2, 'i32': 4, 'u32': 4, 'i64': 8, 'u64': 8, 'f': 4, 'd': 8, 'p': 8}
 
@@ -596,7 +596,15 @@ class Gen:
         self.emit('ret acc')
         self.emit('endfunc')
         self.emit('endmodule')
-        return '\n'.join(self.lines) + '\n'
+        # the text scanner of /repo rejects a label-only line that is followed by a comment-only or empty line ("insn should
+        # start with label or insn name"): give such labels an instruction of their own
+        out = []
+        for i, l in enumerate(self.lines):
+            nxt = self.lines[i + 1].strip() if i + 1 < len(self.lines) else ''
+            if l.rstrip().endswith(':') and ' ' not in l.strip() and (nxt == '' or nxt.startswith('#')):
+                l = '%-8s mov t7, t7' % l.strip()
+            out.append(l)
+        return '\n'.join(out) + '\n'
 
 
 def gen_module(rng, features=None):
